@@ -79,16 +79,16 @@ def parse(out):
                 toks = m.group(4).split()
                 rec = {"tag": m.group(1), "k": int(m.group(2)), "v": int(m.group(3)), "objs": [], "ints": {}, "counts": None}
                 for t in toks:
-                    if "=" not in t:
+                    try:
+                        a, b = t.split("=", 1)
+                        if a == "counts":
+                            rec["counts"] = [int(x) for x in b.split(",")]
+                        elif b.startswith("obj:"):
+                            rec["objs"].append(int(b[4:]))
+                        else:
+                            rec["ints"][a] = int(b)
+                    except ValueError:          # a line cut short by an abort
                         rec["tag"] = "junk"; rec["text"] = l
-                        continue
-                    a, b = t.split("=", 1)
-                    if a == "counts":
-                        rec["counts"] = [int(x) for x in b.split(",")]
-                    elif b.startswith("obj:"):
-                        rec["objs"].append(int(b[4:]))
-                    else:
-                        rec["ints"][a] = int(b)
                 runs[cur].append(rec)
             elif l.strip() and cur:
                 runs[cur].append({"tag": "junk", "text": l})
